@@ -340,7 +340,14 @@ impl<C: Configuration> PasFmtConfiguration<C> {
 
     pub fn get_config_object(&self) -> anyhow::Result<C> {
         let config_file = match &self.config_file {
-            Some(file) => Some(Cow::Borrowed(file.as_path())),
+            Some(file) => {
+                // The file must exist as named; the `config` crate would
+                // otherwise also try the name with a `.toml` suffix.
+                if !file.is_file() {
+                    anyhow::bail!("configuration file \"{}\" not found", file.display());
+                }
+                Some(Cow::Borrowed(file.as_path()))
+            }
             None => Self::find_config_file(std::env::current_dir()?).map(Cow::Owned),
         };
         self.get_config_object_from_file(config_file)
